@@ -185,7 +185,7 @@ def reduce_anchor(layout: str, root: str, raw: str):
 HOSTILE = ['', '.', '..', 'u2', 'cur', 'new', 'tmp', 'a', 'b', 'INBOX', 'inbox', 'pymap-etc-passwd',
            'pymap-etc-shadow', 'subscriptions', 'dovecot-uidlist', '.a', 'a.b', '...', '. .', '\x00',
            'a\x00b', 'é', '&', '&-', '~', '$HOME', '%', '*', ' ', '\\', '..\\u2', 'u1', '.u2',
-           '.INBOX', '..u2', '日本', 'a\nb', '\r', '{1}', '"', "'", 'x' * 40]
+           '.INBOX', '..u2', '日本', 'a\nb', '\r', '{1}', '"', "'", 'x' * 40, '\ud83d', 'a\udc00', '..\udfff']
 
 
 # compatibility / look-alike spellings of '.', '..', '/' and '\\' and of the
